@@ -454,6 +454,14 @@ def write_plotfile(desc, path, ref=None):
         ch.append("")
         with open(os.path.join(ldir, "Cell_H"), "w") as f:
             f.write("\n".join(ch) + "\n")
+        if d.get("decoy"):
+            # a leftover binary file that the level header does NOT list (an earlier write into the same directory, a backup
+            # copy): a FAB with box 0's index range and other values, and an empty file
+            lo, hi = ref.boxes[lv][0]
+            a = -7.0 - ref.data[lv][0]
+            with open(os.path.join(ldir, "Cell_D_00077"), "wb") as f:
+                f.write((FAB_PREFIX + boxstr(lo, hi) + " %d\n" % a.shape[-1]).encode() + np.asfortranarray(a).tobytes(order="F"))
+            open(os.path.join(ldir, "Cell_D_00078"), "wb").close()
     return ref
 
 
